@@ -21,7 +21,11 @@ Local Open Scope string_scope.
 (* ---- "no destination field is written twice" (both directions): the
    destinations of the emitted statements are pairwise distinct.  The guard
    [acc_guard] (accessor names distinct from field names; Go enforces it) is
-   vacuous for plain struct types, see C05_plain_guard. *)
+   vacuous for plain struct types, see C05_plain_guard.  The statement is on
+   NAMES: for plain structs names are distinct per side (C05_pass_invariant), so
+   distinct names are distinct storage; with accessor pseudo-fields two names can
+   denote one backing field -- that is the subject of C15 (setcalls_ok), not of
+   this theorem. *)
 Theorem C05_write_once : forall sigma jb a,
   analyse sigma jb = Some a -> acc_guard jb ->
   NoDup (map (fun st => r_name (st_dst st)) (pl_stmts (a_to a)))
@@ -119,8 +123,7 @@ Proof. exact ex1_complete_hyps. Qed.
    injectivity) and settles the FromX twin.  What is still NOT proved is the link
    between the flattened field arrays / canNameMatch and the declarative
    [visible] leaves / [names_match] of MapperSpec.v, and the value-level equality
-   "executing the plan = MapperSpec.spec_to/spec_from" (see
-   C05_plan_matches_spec_partial below); both are evaluated on every sampled
+   "executing the plan = MapperSpec.spec_to/spec_from" (no theorem yet); both are evaluated on every sampled
    execution by the correspondence. *)
 Theorem C05_attribution_to : forall sigma jb a pr,
   analyse sigma jb = Some a -> prepare jb = Some pr -> acc_guard jb ->
@@ -174,11 +177,37 @@ Proof.
   intros fn H. vm_compute in H. repeat (destruct H as [<-|H]; [discriminate|]). contradiction.
 Qed.
 
-(* ---- "-way limits generation to the requested direction" *)
-Theorem C05_way : forall w,
+(* ---- "-way limits generation to the requested direction": NOT a theorem.  [way]
+   is not an input of the analysis (both plans are always computed); the
+   template's `{{if not .IsFromOnly}}` / `{{if not .IsToOnly}}` is modelled by the
+   two DEFINITIONS has_to / has_from, so the following only unfolds them.  The
+   sentence is carried by the correspondence alone: the method set of every
+   compiled pair is read by reflection and compared (Corr.way_mismatches). *)
+Remark C05_way_by_definition : forall w,
   (has_to w, has_from w) = match w with WBoth => (true, true) | WToOnly => (true, false) | WFromOnly => (false, true) end.
 Proof. exact way_methods. Qed.
-Print Assumptions C05_way.
+
+(* ---- what "the names match" means for two plain fields: identical names match
+   (no tag on the source name), and a tagged source field matches the field its
+   tag names -- PROVIDED the tag map contains the tag under the field's name, which
+   is exactly what fails for names with `_` (C05_refuted_K_map_tag_underscore).
+   "Equal up to acronym casing" (smartMatch) is characterised only by
+   reflexivity / symmetry / equal length (Proofs/TransferProofs.v) and by the L1
+   samples; "smartMatch never joins names that differ by more than case" is FALSE
+   for names with `_` ("a__b" / "a_b_") and not proved for `_`-free ones. *)
+Theorem C05_identical_names_match : forall f1 f2 tm ic,
+  f_isget f1 = false -> f_isset f1 = false -> f_backing f1 = "" -> f_backing f2 = "" ->
+  tm_get tm (f_name f1) = None -> f_name f1 = f_name f2 ->
+  can_name_match f1 f2 tm ic = true.
+Proof. exact can_name_match_same. Qed.
+Print Assumptions C05_identical_names_match.
+
+Theorem C05_tagged_name_matches : forall f1 f2 tm t,
+  f_isget f1 = false -> f_isset f1 = false -> f_backing f1 = "" -> f_backing f2 = "" ->
+  tm_get tm (f_name f1) = Some t -> t = f_name f2 ->
+  can_name_match f1 f2 tm false = true.
+Proof. exact can_name_match_tag. Qed.
+Print Assumptions C05_tagged_name_matches.
 
 (* ---- non-vacuity: ex1 (Proofs/MapperExamples.v) has embedded pointer structs to
    depth 2, a map:"Str" tag, a map:"-" field, conversions, a string<->int8 pair
@@ -256,3 +285,29 @@ Theorem C05_refuted_K_map_nested_tag_ignored :
                 /\ In {| sf_name := "Secret"; sf_emb := false; sf_ty := TBasic BInt; sf_tag := "-" |} fs.
 Proof. exact ex4_nested_tag. Qed.
 Print Assumptions C05_refuted_K_map_nested_tag_ignored.
+
+(* ---- a `map:"Name"` tag is lost when the tagged field's name contains `_`, and
+   when the tag names a destination field that contains `_`: the declarative
+   reading (MapperSpec.names_match: the tag as written, or in Pascal form) maps
+   Title <- User_Name and Nick_name <- Alpha, the plan has neither.  Open finding
+   K_map_tag_underscore (found by the independent review); guard tag_guard. *)
+Theorem C05_refuted_K_map_tag_underscore :
+  spec_pairs (pairs_to (ps_env ex10) (ps_fuel ex10) (job_of ex10 "T"))
+  = [("Title", "User_Name", SAssign); ("Nick_name", "Alpha", SAssign); ("ZipCode", "Beta", SAssign); ("ID", "ID", SAssign)]
+  /\ option_map (fun a => summary (a_to a)) (analyse id_oracle (job_of ex10 "T"))
+     = Some [("ZipCode", "Beta", SAssign, []); ("ID", "ID", SAssign, [])]
+  /\ pair_guard (ps_env ex10) (ps_fuel ex10) (ps_jobs ex10) = false.
+Proof. exact ex10_tag_underscore. Qed.
+Print Assumptions C05_refuted_K_map_tag_underscore.
+
+(* ---- an embedded field of a named NON-struct type is a field named after its
+   type; shoot drops it.  Open finding K_map_embedded_nonstruct (review); guard
+   emb_structs in side_guard. *)
+Theorem C05_refuted_K_map_embedded_nonstruct :
+  spec_pairs (pairs_to (ps_env ex11) (ps_fuel ex11) (job_of ex11 "T"))
+  = [("Level", "Level", SConv (TNamed (POth "common") "Level") (TBasic BInt16)); ("ID", "ID", SAssign)]
+  /\ option_map (fun a => summary (a_to a)) (analyse id_oracle (job_of ex11 "T"))
+     = Some [("ID", "ID", SAssign, [])]
+  /\ pair_guard (ps_env ex11) (ps_fuel ex11) (ps_jobs ex11) = false.
+Proof. exact ex11_embedded_nonstruct. Qed.
+Print Assumptions C05_refuted_K_map_embedded_nonstruct.
